@@ -223,6 +223,11 @@ def run_case(case, rec, mon=None):
 
             sc = copied(sc, COPY_WAYS[case["copy"]])  # the scale as a copied / pickled bank carries it
             rec.count("scales_used_through_a_" + COPY_WAYS[case["copy"]])
+        if case["idx"] % 4 == 1:
+            from ..common import poke
+
+            poke(sc)
+            rec.count("scales_inspected_before_use")
         fwd, inv = R.ref_pair(name, params)
         fs = _probes(case)
         use_np = case.get("np_scalar", False)
